@@ -254,8 +254,14 @@ class LayoutExtractor(object):
                 if self.detect_lines:
                     if not self.detect_regions:
                         regions = page_layout.regions
+                    lines_so_far = [len(region.lines) for region in regions]
                     regions = helpers.assign_lines_to_regions(
                         b_list, h_list, t_list, regions)
+                    if rot > 0 and not self.detect_regions:
+                        # the same regions receive lines from every orientation, numbered from 1 again each time
+                        for region, known in zip(regions, lines_so_far):
+                            for line in region.lines[known:]:
+                                line.id = '{}_{}'.format(line.id, rot)
                 if self.detect_regions:
                     page_layout.regions += regions
 
